@@ -23,10 +23,11 @@ def toHex : Nat → Nat → Str
 def fromHex? (ds : Str) : Option Nat :=
   ds.foldlM (fun acc d => (hexVal? d).map (fun v => acc * 16 + v)) 0
 
-/-- `disallowed_path_re = [\x00-\x1F\x7F-\x9F\s\\]` -/
+/-- `disallowed_path_re = [\x00-\x1F\x7F-\x9F\s\\\uD800-\uDFFF]` (the surrogate range: repair of finding F12b,
+    a lone surrogate cannot be written to a UTF-8 file) -/
 def disallowedRanges : List (Nat × Nat) :=   -- sorted, merged (normal form of the class)
   [(0, 32), (92, 92), (127, 160), (5760, 5760), (8192, 8202), (8232, 8233), (8239, 8239),
-   (8287, 8287), (12288, 12288)]
+   (8287, 8287), (12288, 12288), (55296, 57343)]
 
 def disallowed (c : Nat) : Bool := inRanges disallowedRanges c
 
